@@ -30,7 +30,7 @@ ASSUMPTIONS = [
     "points with y=0 (2-torsion) are a recorded known finding class (KNOWN_FINDINGS.txt)",
 ]
 
-REPCLASS = {"INFcopy": "inf", "J1": "z1", "Jz2": "z", "Jzm1": "z", "Jz3": "z", "Jneg": "negz1", "Jnegz3": "negz",
+REPCLASS = {"INFcopy": "inf", "JZ0": "z0", "J1": "z1", "Jz2": "z", "Jzm1": "z", "Jz3": "z", "Jneg": "negz1", "Jnegz3": "negz",
             "Jacc": "acc", "L": "legacy", "INF": "inf"}
 
 
@@ -39,6 +39,9 @@ def _mk(cf, c, P, rep, helper, twin=False):
         if rep == "INFcopy":
             import pickle
             return pickle.loads(pickle.dumps(INFINITY))     # equal to, but not identical with, the singleton
+        if rep == "JZ0":
+            # the identity in Jacobian form: (t^2 : t^3 : 0), here t = 2
+            return PointJacobi(cf if not twin else CurveFp(c[0], c[1], c[2]), 4 % c[0], 8 % c[0], 0)
         return INFINITY
     if twin:
         # the same curve held in a second, equal CurveFp object (unpickled point, user-built curve)
@@ -68,9 +71,10 @@ def check_pair(ctx, c, P, Q, rp, rq, hp=None, hq=None, enum=False):
     y0 = _y0(P, Q, want)
     case = {"kind": "pair", "c": list(c), "P": P and list(P), "Q": Q and list(Q), "rp": rp, "rq": rq,
             "hp": hp and list(hp), "hq": hq and list(hq)}
-    rc = REPCLASS[rp if P is not None else "INF"] + "+" + REPCLASS[rq if Q is not None else "INF"]
-    if P is None and Q is None and "INFcopy" in (rp, rq):
-        return      # two neutral elements: nothing of PointJacobi is involved
+    rc = REPCLASS[(rp if rp == "JZ0" else "INF") if P is None else rp] + "+" + REPCLASS[(rq if rq == "JZ0" else "INF") if Q is None else rq]
+    if P is None and Q is None and "JZ0" not in (rp, rq):
+        if "INFcopy" in (rp, rq):
+            return      # two neutral elements: nothing of PointJacobi is involved
     ctx.case_sample(case)
 
     legacy_only = all(r in ("legacy", "inf") for r in rc.split("+"))
@@ -190,11 +194,32 @@ def sweep_curve(ctx, c, reps):
             check_unary(ctx, c, P, rp, helpers[P], enum=True)
     for P in allp:
         for Q in allp:
-            rps = reps if P is not None else ("INF", "INFcopy")
-            rqs = reps if Q is not None else ("INF", "INFcopy")
+            rps = reps if P is not None else ("INF", "INFcopy", "JZ0")
+            rqs = reps if Q is not None else ("INF", "INFcopy", "JZ0")
             for rp in rps:
                 for rq in rqs:
                     check_pair(ctx, c, P, Q, rp, rq, helpers.get(P), helpers.get(Q), enum=True)
+
+
+def check_identity_unary(ctx, c):
+    """the identity given in Jacobian form (Z = 0): negation, doubling, rescaling and conversion to affine
+    form give the identity again, and it equals INFINITY in both spellings"""
+    p = c[0]
+    case = {"kind": "identity-unary", "c": list(c)}
+    for nm, f in (("to_affine", lambda I: I.to_affine()), ("neg", lambda I: -I), ("double", lambda I: I.double()),
+                  ("scale", lambda I: I.scale()), ("self", lambda I: I), ("add-self", lambda I: I + I),
+                  ("scale-then-neg", lambda I: -(I.scale()))):
+        ctx.ev()
+        try:
+            I = _mk(CurveFp(p, c[1], c[2]), c, None, "JZ0", None)
+            R = f(I)
+            ok = (R == INFINITY) is True and (R != INFINITY) is False and (INFINITY == R) is True
+        except Exception as e:
+            ctx.fail("identity-z0/%s/exception/%s" % (nm, exc_sig(e)), dict(case, op=nm), repr(e))
+            continue
+        if not ok:
+            ctx.fail("identity-z0/%s/not-identity" % nm, dict(case, op=nm), repr(R))
+        ctx.nontrivial_enum()
 
 
 def sweep_ordered(ctx, c):
@@ -405,6 +430,7 @@ def run_unit(ctx, name, **kw):
         for c in kw["curves"]:
             sweep_curve(ctx, tuple(c), tuple(kw["reps"]))
             cross_curve_eq(ctx, tuple(c), tuple(kw["reps"]))
+            check_identity_unary(ctx, tuple(c))
             if c[0] <= 13:
                 sweep_ordered(ctx, tuple(c))
         c0 = kw["curves"][0]
@@ -445,6 +471,8 @@ def replay(ctx, case):
     t = lambda v: None if v is None else tuple(v)
     if k == "ordered":
         return replay_ordered(ctx, case)
+    if k == "identity-unary":
+        return check_identity_unary(ctx, tuple(case["c"]))
     if k == "pair":
         check_pair(ctx, tuple(case["c"]), t(case["P"]), t(case["Q"]), case["rp"], case["rq"],
                    t(case.get("hp")), t(case.get("hq")))
